@@ -1,6 +1,7 @@
 package main
 
 import (
+	"go/token"
 	"fmt"
 	"os"
 	"regexp"
@@ -976,6 +977,94 @@ func ruleCleanDisappeared(c *Check, rule string) {
 	}
 	if okc && nRem > 0 {
 		c.Ok(rule, name, "every call compares the whole waiting set with the listing and removes the missing names; there is no early exit", c.P.Pos(fn.Pos()))
+	}
+	// the listing handed in is in no particular order (the receiver collects it
+	// from a map): it may only be consumed by order-independent operations
+	if len(fn.Params) >= 2 {
+		orderFree := map[string]bool{
+			"slices.Contains": true, "slices.Index": true, "slices.ContainsFunc": true, "slices.IndexFunc": true,
+			"github.com/samber/lo.Contains": true, "github.com/samber/lo.SliceToMap": true, "github.com/samber/lo.Keyify": true,
+			"github.com/samber/lo.Associate": true, "github.com/samber/lo.Without": true, "github.com/samber/lo.Difference": true,
+			"slices.Clone": false,
+		}
+		nUse, badUse := 0, 0
+		var visit func(v ssa.Value, d int)
+		visit = func(v ssa.Value, d int) {
+			if v.Referrers() == nil || d > 4 {
+				return
+			}
+			for _, r := range *v.Referrers() {
+				switch x := r.(type) {
+				case *ssa.Range, *ssa.Index, *ssa.IndexAddr, *ssa.DebugRef, *ssa.Lookup:
+					nUse++
+				case *ssa.Slice, *ssa.ChangeType, *ssa.Phi:
+					visit(x.(ssa.Value), d+1)
+				case *ssa.Store:
+					if al, ok := x.Addr.(*ssa.Alloc); ok && x.Val == v {
+						if al.Referrers() != nil {
+							for _, ar := range *al.Referrers() {
+								if ld, ok := ar.(*ssa.UnOp); ok && ld.Op == token.MUL {
+									visit(ld, d+1)
+								}
+								if mc, ok := ar.(*ssa.MakeClosure); ok {
+									if cf, ok := mc.Fn.(*ssa.Function); ok {
+										for i, b := range mc.Bindings {
+											if b == ssa.Value(al) && i < len(cf.FreeVars) && cf.FreeVars[i].Referrers() != nil {
+												for _, fr := range *cf.FreeVars[i].Referrers() {
+													if ld, ok := fr.(*ssa.UnOp); ok && ld.Op == token.MUL {
+														visit(ld, d+1)
+													}
+												}
+											}
+										}
+									}
+								}
+							}
+						}
+					}
+				case *ssa.MakeClosure:
+					if cf, ok := x.Fn.(*ssa.Function); ok {
+						for i, b := range x.Bindings {
+							if b == v && i < len(cf.FreeVars) {
+								visit(cf.FreeVars[i], d+1)
+							}
+						}
+					}
+				case ssa.CallInstruction:
+					cc := x.Common()
+					nUse++
+					if bi, ok := cc.Value.(*ssa.Builtin); ok && (bi.Name() == "len" || bi.Name() == "cap") {
+						continue
+					}
+					callee := cc.StaticCallee()
+					nm := ""
+					if callee != nil {
+						o := callee
+						if og := callee.Origin(); og != nil {
+							o = og
+						}
+						nm = o.String()
+					}
+					if callee != nil && unknownHelper(callee, 0) {
+						for i, a := range cc.Args {
+							if a == v && i < len(callee.Params) {
+								visit(callee.Params[i], d+1)
+							}
+						}
+						continue
+					}
+					if !orderFree[nm] {
+						badUse++
+						c.Bad(rule, name+"/listing-order-free", "the listing of seen instances (in no particular order: it is collected from a map) is handed to "+nm+", which is not known to be independent of the order of its elements: instances that are still present can be reported as disappeared and leave the waiting set before their snapshot was merged", c.P.InstrPos(x), nil)
+					}
+				}
+			}
+		}
+		visit(fn.Params[1], 0)
+		if badUse == 0 && nUse > 0 {
+			c.Ok(rule, name+"/listing-order-free", fmt.Sprintf("the unordered listing is only ranged over, indexed, measured or handed to order-independent membership helpers (%d uses)", nUse), c.P.Pos(fn.Pos()))
+		}
+		c.Floor(rule, nUse, 1, "uses of the listing in CleanDisappeared")
 	}
 }
 
